@@ -202,6 +202,12 @@ def render_generator(spec):
         return nu_str(spec["strings"][0])
     if k == "duplex":
         return 'each {|x| $x}'
+    if k == "duplex_first":
+        return 'each {|x| $x} | first 1'
+    if k == "mixed":          # values that are not strings produce nothing
+        return "[1 %s 2.5 {a: 1}] | each {|x| $x}" % " ".join(nu_str(x) for x in spec["strings"])
+    if k == "unparsable":
+        return "[1 2"
     return "[] | each {|x| $x}"
 
 
@@ -300,9 +306,9 @@ class Gen:
 
     def generator_spec(self):
         r = self.r
-        k = r.choice(["list", "list", "single", "empty", "duplex", "nocontent"])
+        k = r.choice(["list", "list", "single", "empty", "duplex", "duplex", "duplex_first", "nocontent", "mixed", "unparsable"])
         n = 1 if k == "single" else r.randint(1, 3)
-        return {"kind": k, "strings": [r.choice(["a", "b c", "zz"]) for _ in range(n)] if k in ("list", "single") else []}
+        return {"kind": k, "strings": [r.choice(["a", "b c", "zz"]) for _ in range(n)] if k in ("list", "single", "mixed") else []}
 
     def build_services(self):
         """commands and generators (C18 / C19): defines, calls (sequential and concurrent), spawns, sends, restarts"""
@@ -484,7 +490,7 @@ def run_impl(sc, keep_dir=False, settle_ms=250):
                     step_ids[i] = obs["ok"]["id"]
             elif k == "spawn":
                 sp = st["spec"]
-                meta = {"duplex": True} if sp["kind"] == "duplex" else None
+                meta = {"duplex": True} if sp["kind"] in ("duplex", "duplex_first") else None
                 if sp["kind"] == "nocontent":
                     obs = w.call(frame_op("append", st["name"] + ".spawn", ctx_hex(st["ctx"]), meta))
                 else:
@@ -899,8 +905,10 @@ def analyse_generators(sc, res, drv, e, hist, live, known_ids):
     if not specs:
         return []
     fnd = []
-    dup = [sid for sid, st in specs.items() if st["spec"]["kind"] == "duplex"]
-    ans = drv.ask({"q": "generator", "history": [sframe(f) for f in hist], "live": [sframe(f) for f in live], "duplex": dup})
+    dup = [sid for sid, st in specs.items() if st["spec"]["kind"] in ("duplex", "duplex_first")]
+    bad = [sid for sid, st in specs.items() if st["spec"]["kind"] == "unparsable" or st["spec"].get("parse_fail")]
+    ans = drv.ask({"q": "generator", "history": [sframe(f) for f in hist], "live": [sframe(f) for f in live], "duplex": dup,
+                   "unparsable": bad})
     acts = ans["startup"] + ans["live"]
     tasks = {}
     want_rej = []
@@ -945,7 +953,38 @@ def analyse_generators(sc, res, drv, e, hist, live, known_ids):
             fnd.append({"kind": "generator", "props": props_restart, "epoch": e, "source": sid[-6:], "name": a["name"],
                         "why": "an accepted / restored spawn never started"})
             continue
-        if a["duplex"]:
+        if a["duplex"] and sp["kind"] == "duplex_first":
+            # a duplex pipeline that ends after its first value: every lifecycle is start, one recv, stop; what an
+            # instance is fed are the sends stored after *its own* start (C18), nothing of an earlier lifecycle
+            stream_m = [sframe(f) for f in hist + live]
+            i = 0
+            while i < len(obs):
+                topic = unhx(obs[i]["topic"])
+                if not topic.endswith(".start"):
+                    fnd.append({"kind": "generator", "props": props_restart, "epoch": e, "source": sid[-6:], "name": a["name"],
+                                "why": "duplex lifecycle does not begin with start", "impl": [unhx(f["topic"]) for f in obs][:10]})
+                    break
+                m = drv.ask({"q": "lifecycle", "task": task, "stream": stream_m, "start_id": obs[i]["id"], "prefix": ""})
+                fed = m["input"]
+                if i + 1 < len(obs) and unhx(obs[i + 1]["topic"]).endswith(".recv"):
+                    c = obs[i + 1].get("content") or ""
+                    joins = ["".join(fed[:k]) for k in range(1, len(fed) + 1)]
+                    if c not in joins:
+                        fnd.append({"kind": "generator", "props": props_restart, "epoch": e, "source": sid[-6:], "name": a["name"],
+                                    "why": "duplex instance was fed something other than the sends stored after its own start",
+                                    "model": fed, "impl": c})
+                        break
+                    if i + 2 < len(obs) and not unhx(obs[i + 2]["topic"]).endswith(".stop"):
+                        fnd.append({"kind": "generator", "props": props_restart, "epoch": e, "source": sid[-6:], "name": a["name"],
+                                    "why": "lifecycle differs from start, recv, stop", "impl": [unhx(f["topic"]) for f in obs][:10]})
+                        break
+                    i += 3
+                else:
+                    if i + 1 < len(obs):
+                        fnd.append({"kind": "generator", "props": props_restart, "epoch": e, "source": sid[-6:], "name": a["name"],
+                                    "why": "lifecycle differs from start, recv, stop", "impl": [unhx(f["topic"]) for f in obs][:10]})
+                    break
+        elif a["duplex"]:
             start = obs[0]
             m = drv.ask({"q": "lifecycle", "task": task, "stream": [sframe(f) for f in hist + live], "start_id": start["id"], "prefix": ""})
             # nushell decides how the byte stream is cut into values (chunks are merged, the last one may be held back):
@@ -963,7 +1002,7 @@ def analyse_generators(sc, res, drv, e, hist, live, known_ids):
                             "why": "duplex instance: what it emitted is not the content of the sends of its context, each once, in order",
                             "model": fed, "impl": [[x[0], x[4]] for x in got][:10]})
         else:
-            m = drv.ask({"q": "lifecycle", "task": task, "strings": sp["strings"] if sp["kind"] in ("list", "single") else []})
+            m = drv.ask({"q": "lifecycle", "task": task, "strings": sp["strings"] if sp["kind"] in ("list", "single", "mixed") else []})
             one = [canon_out(o, known_ids) for o in m["frames"]]
             k = len(got) // len(one)
             want = one * k + one[:len(got) - k * len(one)]
